@@ -10,7 +10,8 @@ from sa.guards import GuardWalk, is_opaque
 from sa.kern import make_evaluator
 from sa.loopsum import LoopSummariser, has_opaque, kvar, r_cell
 from sa.report import Ctx
-from sa.srcmodel import ClassInfo, FuncInfo, func_body, mangle
+from sa.srcmodel import (ClassInfo, FuncInfo, func_body, inline_locals,
+                         mangle)
 from sa.symterm import (Env, Evaluator, Poly, Unsupported, all_atoms,
                         nested_polys, show, show_cond)
 
@@ -49,6 +50,12 @@ class ClassModel:
                         except Unsupported:
                             v = None
                         self.fields[mangle(c.name, tg.attr)] = v
+                    elif isinstance(tg, ast.Name):
+                        # a local of the constructor (hoisted value)
+                        try:
+                            env = ev.stmt(env, s)
+                        except Unsupported:
+                            env.vars.pop(tg.id, None)
 
     @staticmethod
     def _calls(ev: Evaluator, env: Env, n: ast.Call) -> Any:
@@ -183,7 +190,8 @@ def _check_class(ctx: Ctx, cls: ClassInfo, idx_bin: int) -> None:
                    f"{cls.name}.evaluate")
     rets = [r for r in ast.walk(evm.node) if isinstance(r, ast.Return)]
     ctx.need(len(rets) == 1, f"{cls.name}.evaluate has one return")
-    rv = rets[0].value
+    # temporaries of the wrapper are looked through
+    rv = inline_locals(evm.node, rets[0].value)
     xname = evm.params[1]
     value: Any = None
     kern: FuncInfo | None = None
